@@ -32,7 +32,7 @@ Section Json.
   (** Deserialize for Loop3D (after the fix: every failure is an error value).
       A non-array document skips the reading loop and fails in [close] (fewer than 3 vertices). *)
   Definition de_loop (v : Value) : res (Loop K) :=
-    do L <- (match v with JArray a => de_points a (S (length a)) loop_new | _ => Ok loop_new end);
+    do L <- (match v with JArray a => de_points a (S (List.length a)) loop_new | _ => Ok loop_new end);
     let '(L', r) := loop_close L in
     do _ <- r; Ok L'.
 
